@@ -77,6 +77,19 @@ def bounded_cases(ctx: Ctx):
                 v2 = np.stack([v, v[::-1]])
                 c = dict(array=enc(v2), by=[enc(lab)], func=func, chunks=[[1, 1], list(chunkings[i % len(chunkings)])])
                 cases.append(c)
+    # every element its own group / a single element along the scanned axis (the shortcuts in groupby_scan)
+    for func in ("nancumsum", "ffill", "bfill"):
+        for m in (1, 2, 3):
+            for pat in label_patterns(m, m, with_missing=False):
+                for vals in ([np.nan, 2.0, np.nan], [1.0, np.nan, 3.0], [np.nan, np.nan, np.nan]):
+                    v = np.array(vals[:m])
+                    for ch in [None] + [list(c) for c in compositions(m)]:
+                        c = dict(array=enc(v), by=[enc(np.array(pat) * 10 + 5)], func=func)
+                        if ch is not None:
+                            c["chunks"] = [ch]
+                        cases.append(c)
+        c = dict(array=enc(np.array([[np.nan], [2.0]])), by=[enc(np.array([5]))], func=func)
+        cases.append(c)
     return cases
 
 
